@@ -16,6 +16,14 @@ NOTES = ("Every check = TLA+ specification under spec/ checked by TLC + conforma
          "known_findings.json lists genuine defects (known / fixed).")
 NOT_APPLICABLE = {}
 CHECKS = {
+    "C12": {
+        "level": "model_checking",
+        "technique": "TLA+ spec Pagination.tla (page maker RemakePage/InsertBlank/Finish with the CSS Fragmentation rule-dropping tiers) model-checked by TLC; every document laid out by layout.Layout, geometry/page types/counters compared, and the real page sequences validated as traces by TLC against PaginationTrace.tla",
+        "text": "TLC explores the page maker on every bounded flow of paragraphs (invariants Refines, SideHonoured, FitsPage, NoTwoBlanks, Conservation; "
+                "properties Progress, Terminates) and emits documents; the real page boxes must have the declared size, side margins, :first/:blank "
+                "selection and page/pages counters, and every real page sequence must be a behaviour of the specification's relaxed page maker.",
+        "note": "LTR, <br>-separated non-wrapping lines of equal height, no named pages / floats / tables; where no conforming break exists any break of the first non-empty tier is accepted.",
+    },
     "C11": {
         "level": "model_checking",
         "technique": "TLA+ spec LineBreak.tla (greedy line filler as a transition system with Conservation/FitsWidth/Greedy invariants) model-checked by TLC; every paragraph laid out by layout.Layout with a metric-exact font under both text engines",
